@@ -8,6 +8,9 @@ use vh_lite::{rows_json, Driven, Value};
 
 use vh_lite::{read_cases, drive, drive_group, quiet_panics, Out};
 
+mod eqrel_order__ser;
+mod eqrel_order__par;
+mod eqrel_order__pari;
 mod eqrel_bin__ser;
 mod eqrel_bin__par;
 mod eqrel_bin__pari;
@@ -18,6 +21,9 @@ mod eqrel_plain__pari;
 
 fn lookup(name: &str) -> fn() -> Box<dyn Driven> {
    match name {
+      "eqrel_order__ser" => eqrel_order__ser::make,
+      "eqrel_order__par" => eqrel_order__par::make,
+      "eqrel_order__pari" => eqrel_order__pari::make,
       "eqrel_bin__ser" => eqrel_bin__ser::make,
       "eqrel_bin__par" => eqrel_bin__par::make,
       "eqrel_bin__pari" => eqrel_bin__pari::make,
